@@ -55,7 +55,7 @@ def chain_programs(tier, rng, n_nested=3000, n_other=1500):
 STORE_SPELLINGS = ['ann', 'for', 'with', 'tuple', 'import']
 
 
-def observe_and_judge(rep, progs, optsets, family, tag, rng, variant_share=0.25, store_share=0.15):
+def observe_and_judge(rep, progs, optsets, family, tag, rng, variant_share=0.25, store_share=0.1):
     """optsets: list of (name, opts dict for scopegen.observe)"""
     jobs = []
     for pid, p in progs:
@@ -66,6 +66,14 @@ def observe_and_judge(rep, progs, optsets, family, tag, rng, variant_share=0.25,
             on, o = optsets[rng.randrange(len(optsets))]
             for sp in STORE_SPELLINGS:
                 jobs.append({'id': '%s|%s|s-%s' % (pid, on, sp), 'p': p, 'variant': 0, 'opts': o, 'store': sp})
+                # ... and one suite down, inside an `if` of the same scope
+                jobs.append({'id': '%s|%s|s-%s-w' % (pid, on, sp), 'p': p, 'variant': 0, 'opts': o, 'store': sp, 'wrap': True})
+        if rng.random() < store_share:
+            # mentions that bind nothing or are evaluated elsewhere: a value-less module-level annotation, `del` of a declared global, reads in the
+            # annotations of *args / **kwargs
+            on, o = optsets[rng.randrange(len(optsets))]
+            for dk in ('ann', 'del', 'hdr'):
+                jobs.append({'id': '%s|%s|d-%s' % (pid, on, dk), 'p': p, 'variant': 0, 'opts': o, 'deco': [dk]})
         if rng.random() < variant_share:
             on, o = optsets[0]
             jobs.append({'id': '%s|%s|v1' % (pid, on), 'p': p, 'variant': 1, 'opts': o})
@@ -113,6 +121,46 @@ def judge_jobs(rep, jobs, family, tag):
     for o in list(keep.values())[:1] + [x for x in keep.values() if x['alias']][:1] + [x for x in keep.values() if 'walrus' in str(x['occ'])][:1]:
         rep.sample({'source': o['src'], 'output': o['out_src'], 'occurrences': [(x['scope'], x['name'], x['how'], x['out']) for x in o['occ']]})
     return skipped
+
+
+def py2_replay(rep, tier, rng, family, tag, optsets):
+    """the enumerated programs that exist on Python 2 (no nonlocal, no assignment expression), comprehensions written as list comprehensions, minified by
+    the code running under 2.7; judged by the same Trace_Rename.tla after list comprehensions - which are not scopes there - are folded into the scope
+    they stand in"""
+    from ..common import available_versions
+    if '2.7' not in available_versions():
+        return 0
+    p31, _ = tlc.cached_export('Rename', 'Export_Rename_3x1.cfg')
+    p22, _ = tlc.cached_export('Rename', 'Export_Rename_2x2.cfg')
+    progs = [('3x1-%d' % k, p) for k, p in enumerate(p31) if scopegen.py2_compatible(p)] + [('2x2-%d' % k, p) for k, p in enumerate(p22) if scopegen.py2_compatible(p)]
+    with_comp = [x for x in progs if 'g' in x[1]['kind']]
+    rest = [x for x in progs if 'g' not in x[1]['kind']]
+    rng.shuffle(with_comp)
+    rng.shuffle(rest)
+    take = with_comp[:1200] + rest[:600] if tier == 'quick' else progs
+    jobs = []
+    for pid, p in take:
+        on, o = optsets[rng.randrange(len(optsets))]
+        jobs.append({'id': 'py2:%s|%s|lc' % (pid, on), 'p': p, 'opts': o})
+    obs = scopegen.observe_remote('2.7', jobs)
+    rep.evaluations += len(obs)
+    keep = {o['id']: o for o in obs if not o.get('skip')}
+    for o in obs:
+        if o.get('skip') == 'minify-raised':
+            rep.violation(key='py2-raised|' + o['msg'][:60], clause='c03:minify-raised-on-a-compilable-program', what=o['msg'] + ' (python 2.7) source=' + repr(o['src'][:200]),
+                          replay={'kind': 'minify', 'version': '2.7', 'src_b64': inputs.b64(o['src'].encode()), 'opts': {}})
+    records = [{k: v for k, v in o.items() if k not in ('src', 'out_src')} for o in keep.values()]
+    verdicts, judged = tlc.judge('Trace_Rename', 'Trace_Rename.cfg', records, tag=tag, timeout=7200)
+    rep.add_judged(judged)
+    for rid, v in sorted(verdicts.items()):
+        if not any(v[0].startswith(f) for f in family):
+            continue
+        o = keep[rid]
+        shape = 'py2 kinds=%s uses=%s opts=%s' % (''.join(o['kind']), sorted(set((x['scope'], x['name'], x['how']) for x in o['occ'])), rid.split('|')[1])
+        rep.violation(key=sha(shape)[:12] + '|' + v[0], clause=v[0], what=rid + ' (python 2.7) source:\n' + o['src'] + '--- output:\n' + o['out_src'],
+                      replay={'kind': 'minify', 'version': '2.7', 'src_b64': inputs.b64(o['src'].encode()),
+                              'opts': {'rename_locals': o['rl'], 'rename_globals': o['rg'], 'hoist_literals': False}})
+    return len(records)
 
 
 def pep709_replay(rep, tier, rng, tag):
